@@ -31,14 +31,15 @@ LEVEL_TEXT = ("Exploration: every catalogue entry is executed under every closur
 LEVEL_NOTE = ("Catalogue-bounded: cycle kinds outside the listed seven are not generated. C-stack "
               "exhaustion under a raised recursion limit is observed as a signal of the child.")
 
-SHAPES = ["use", "extends_same", "extends_cross", "submodule", "submodule_direct", "pointer", "associate",
+SHAPES = ["use", "extends_same", "extends_cross", "submodule", "submodule_direct", "pointer", "pointer_cross",
+          "associate",
           "tbp", "include", "include_scoped", "include_mixed", "ppinclude", "interface_proc", "use_only_rename"]
-CLOSURES = ["startup", "last_open", "edit_save", "break_reclose"]
+CLOSURES = ["startup", "last_open", "edit_save", "break_reclose", "touch_each"]
 
 
 def plan(tier):
     n = len(SHAPES) * 4 * len(CLOSURES)
-    return {"cases": n * 3, "wall_s": 150} if tier == "quick" else {"cases": n * 60, "wall_s": 1700}
+    return {"cases": n * 2, "wall_s": 150} if tier == "quick" else {"cases": n * 60, "wall_s": 1700}
 
 
 def nxt(i, L):
@@ -79,8 +80,20 @@ def build(shape, L, tag):
                      f"    print *, self%c{i}_{T}, self%c{nxt(i, L)}_{T}", f"    call self%p{nxt(i, L)}_{T}()",
                      f"    call self%ov_{T}()", "  end subroutine",
                      f"  subroutine ov{i}_{T}(self)", f"    class(t{i}_{T}) :: self", "  end subroutine"]
+        body[-1:-1] = []  # (procedures above)
+        # tail types that extend a member of the cycle without being on it (rho shape)
+        tail_types = [f"  type, extends(t0_{T}) :: tail_{T}", f"    integer :: ct_{T}", "  contains",
+                      f"    procedure :: ov_{T} => ovt_{T}", f"  end type tail_{T}",
+                      f"  type, extends(tail_{T}) :: tail2_{T}", "  contains",
+                      f"    procedure :: ov_{T} => ovt2_{T}", f"  end type tail2_{T}"]
+        k = body.index("contains")
+        body[k:k] = tail_types
+        body += [f"  subroutine ovt_{T}(self)", f"    class(tail_{T}) :: self", f"    call self%ov_{T}()",
+                 "  end subroutine", f"  subroutine ovt2_{T}(self)", f"    class(tail2_{T}) :: self",
+                 f"    print *, self%ct_{T}, self%c0_{T}", "  end subroutine"]
         body += [f"end module me_{T}", f"program pe_{T}", f"  use me_{T}", f"  type(t0_{T}) :: o",
-                 f"  o%c0_{T} = 1", f"  call o%p0_{T}()", f"end program pe_{T}"]
+                 f"  type(tail2_{T}) :: ot",
+                 f"  o%c0_{T} = 1", f"  call o%p0_{T}()", f"  call ot%ov_{T}()", f"end program pe_{T}"]
         f[f"e_{T}.f90"] = "\n".join(body) + "\n"
         brk = (f"e_{T}.f90", f"  type, extends(t{nxt(0, L)}_{T}) :: t0_{T}", f"  type :: t0_{T}")
     elif shape == "extends_cross":
@@ -137,6 +150,16 @@ def build(shape, L, tag):
         f[f"immain_{T}.f90"] = (f"program pim_{T}\n  implicit none\n  include 'im0_{T}.f90'\n  mv0_{T} = 2\n"
                                 f"end program\n")
         brk = (f"im0_{T}.f90", f"  include 'im{nxt(0, L)}_{T}.f90'", "  ! include removed")
+    elif shape == "pointer_cross":
+        for i in range(L):
+            j = nxt(i, L)
+            f[f"ring{i}_{T}.f90"] = (
+                f"module mring{i}_{T}\n  use mring{j}_{T}\n  implicit none\n"
+                f"  real, pointer :: rp{i}_{T} => rp{j}_{T}\n"
+                f"  procedure(rs{i}_{T}), pointer :: rq{i}_{T} => rq{j}_{T}\ncontains\n"
+                f"  subroutine rs{i}_{T}()\n    rp{i}_{T} = rp{j}_{T}\n    call rq{i}_{T}()\n    call rq{j}_{T}()\n"
+                f"  end subroutine\nend module mring{i}_{T}\n")
+        brk = (f"ring0_{T}.f90", f"  real, pointer :: rp0_{T} => rp{nxt(0, L)}_{T}", f"  real, pointer :: rp0_{T} => null()")
     elif shape == "pointer":
         decl = []
         for i in range(L):
@@ -280,6 +303,23 @@ def gen_sched(g):
             other = rng.choice(names)
             ops.append(gen.did_save(paths[other]))
         queries(names, per_file)
+    elif closure == "touch_each":
+        # all files present at start-up, then each file in turn is re-parsed by a harmless edit
+        # (re-linking meets the cycle from a different side each time) and everything is queried
+        tree = {paths[n]: files[n] for n in names}
+        ops += [gen.initialize(0), gen.initialized()]
+        for n in names:
+            ops.append(gen.did_open(paths[n], files[n]))
+        order = names[:]
+        rng.shuffle(order)
+        cur = {n: model.split_lines(files[n]) for n in names}
+        for n in order:
+            last = len(cur[n]) - 1
+            ch = {"range": {"start": {"line": last, "character": len(cur[n][last])},
+                            "end": {"line": last, "character": len(cur[n][last])}}, "text": "! touched\n"}
+            cur[n] = model.apply_change(cur[n], ch)
+            ops.append(gen.did_change(paths[n], [ch]))
+            queries(names, max(8, per_file // 3))
     else:  # break_reclose
         tree = {paths[n]: files[n] for n in names}
         ops += [gen.initialize(0), gen.initialized()]
